@@ -823,6 +823,16 @@ func (w *world) perform(a *actor, ks kindSpec, tgt *vclient.Client, j job, expec
 		return outcome{wd: true}
 	}
 	others := w.others(a)
+	closedBefore := map[*vclient.Client]bool{}
+	for _, c := range w.clients() {
+		closedBefore[c] = closedNow(c)
+		if closedBefore[c] && !(c == a.c && a.state == "kicked") {
+			// the harness removes what it closes; this one was dropped by the server
+			_, cerr := c.Closed()
+			w.inconclusive(fmt.Sprintf("the connection of %s was lost (%v)", c.ID, cerr))
+			return outcome{wd: true}
+		}
+	}
 	mo := w.memberOthers(a) // who must see a broadcast effect
 	moExceptTarget := 0
 	for _, c := range mo {
@@ -914,6 +924,18 @@ func (w *world) perform(a *actor, ks kindSpec, tgt *vclient.Client, j job, expec
 	}
 	if !w.quiesce() {
 		return outcome{wd: true}
+	}
+
+	// On an overloaded machine the server now and then drops a connection (its socket
+	// writes have a 500 ms deadline).  A bystander that vanishes that way makes the
+	// case undecidable: its departure is not an effect of the actor's message.  (The
+	// target of a 'kick' is looked at separately.)
+	for _, c := range w.clients() {
+		if closedNow(c) && !closedBefore[c] && !(ks.name == "kick" && c == tgt) {
+			_, cerr := c.Closed()
+			w.inconclusive(fmt.Sprintf("the connection of %s was lost during the case (%v)", c.ID, cerr))
+			return outcome{wd: true}
+		}
 	}
 
 	// what everybody saw
